@@ -396,18 +396,44 @@ Definition decode (instance : list N) (env : list N -> option (list N)) (line : 
 
 (* ------------------------------------------------------- the unit file text *)
 
-(* lines of a file as read_line sees them: ended by LF, CR or NUL; empty lines
-   are skipped by the parser *)
-Fixpoint lines_go (cur : list N) (l : list N) : list (list N) :=
-  match l with
-  | [] => match cur with [] => [] | _ => [rev cur] end
-  | b :: r =>
-    if (b =? 10) || (b =? 13) || (b =? 0)
-    then match cur with [] => lines_go [] r | _ => rev cur :: lines_go [] r end
-    else lines_go (b :: cur) r
-  end.
-
-Definition unit_lines (text : list N) : list (list N) := lines_go [] text.
+(* How systemd 252 reads a unit FILE up to the point where it has the values of
+   the ExecStart= assignments of the [Service] section (conf-parser.c
+   config_parse / parse_line, fileio.c read_line_full, load-fragment.c
+   config_parse_exec for the "empty value resets the list" rule).  Every other
+   setting of the file is read past, not interpreted: what this reader answers
+   does not depend on Description=, User=, Restart= ... lines, on their order or
+   on blank lines and comments.  Each rule below was checked against the
+   installed `systemd-analyze verify` (v252) on hand-written unit files:
+     - a line ends at LF, CR, NUL, or at one of the pairs CR LF / LF CR (each
+       kind of end-of-line byte at most once per line end); a last line
+       without line end counts;
+     - a line whose first non-blank byte is '#' or ';' is a comment and is
+       dropped, ALSO in the middle of a continued line (the continuation goes
+       on with the line after the comment);
+     - the first line that begins with a UTF-8 byte order mark loses it (the
+       comment test comes first);
+     - a line that ends in a backslash which is not itself escaped by a
+       backslash is joined with the next line, the backslash becoming a space;
+       an empty line ends a continuation; a continuation still open at the end
+       of the file is used as it is;
+     - the joined line is stripped of leading and trailing white space; empty
+       lines are skipped; a line that is not "UTF-8 clean" makes the whole
+       unit fail to load ("String is not UTF-8 clean, ignoring assignment",
+       then "failed to load properly: Invalid argument");
+     - "[name]" sets the current section (names are case sensitive; a section
+       the unit type does not know is ignored with everything in it); a line
+       that begins with '[' and does not end with ']' makes the unit fail to
+       load ("Invalid section header");
+     - any other line is  key=value  at its first '=' (no '=' or no key: the
+       line is ignored with a warning), key and value stripped of white space;
+     - ExecStart= counts in section [Service] only.
+   Deliberate strictness: EVERY ExecStart= assignment of [Service] is reported,
+   also one with an empty value.  For systemd an empty value empties the list
+   of commands collected so far, so a unit with such a reset can be fine for
+   systemd (unless a line before the reset was malformed: v252 then still
+   refuses to start the unit) while a reader that wants exactly one assignment
+   refuses it.
+   Not modelled: drop-in directories, lines longer than 1 MiB. *)
 
 Fixpoint strip_prefix (p l : list N) : option (list N) :=
   match p, l with
@@ -423,18 +449,152 @@ Fixpoint list_eqb (a b : list N) : bool :=
   | _, _ => false
   end.
 
-(* the value of the single ExecStart= assignment of a unit file whose other
-   non-empty lines are exactly [header]; None if the file has any other shape
-   (a pattern that smuggled a line break into the file changes the shape).
-   "ExecStart=" = 69 120 101 99 83 116 97 114 116 61 *)
-Fixpoint exec_start_after (header : list (list N)) (ls : list (list N)) : option (list N) :=
-  match header, ls with
-  | [], [l] =>
-    if existsb (N.eqb 92) (match rev l with x :: _ => [x] | [] => [] end) then None  (* trailing backslash: continuation *)
-    else strip_prefix [69; 120; 101; 99; 83; 116; 97; 114; 116; 61] l
-  | h :: hs, l :: ls' => if list_eqb h l then exec_start_after hs ls' else None
-  | _, _ => None
+Definition is_eol (b : N) : bool := (b =? 10) || (b =? 13) || (b =? 0).
+Definition memb (b : N) (l : list N) : bool := existsb (N.eqb b) l.
+Definition nonempty (l : list N) : bool := match l with [] => false | _ :: _ => true end.
+
+(* read_line, called until the end of the file.  [cur]: the bytes of the line
+   being read, reversed; [prev]: the end-of-line bytes already consumed for it.
+   A line is complete when a NUL was consumed, when a byte that is no
+   end-of-line byte follows an end-of-line byte, or when an end-of-line byte of
+   a kind already consumed comes again; that byte then starts the next line. *)
+Fixpoint read_lines (cur prev : list N) (l : list N) : list (list N) :=
+  match l with
+  | [] => if nonempty prev || nonempty cur then [rev cur] else []
+  | b :: r =>
+    if memb 0 prev || (negb (is_eol b) && nonempty prev) || (is_eol b && memb b prev)
+    then rev cur :: (if is_eol b then read_lines [] [b] r else read_lines [b] [] r)
+    else if is_eol b then read_lines cur (b :: prev) r
+    else read_lines (b :: cur) prev r
   end.
 
-Definition unit_exec_start (header : list (list N)) (text : list N) : option (list N) :=
-  exec_start_after header (unit_lines text).
+Definition file_lines (text : list N) : list (list N) := read_lines [] [] text.
+
+Fixpoint skip_ws (l : list N) : list N :=
+  match l with
+  | b :: r => if is_ws b then skip_ws r else l
+  | [] => []
+  end.
+
+(* strstrip *)
+Definition strstrip (l : list N) : list N := rev (skip_ws (rev (skip_ws l))).
+
+(* COMMENTS "#;" after skip_leading_chars(buf, WHITESPACE) *)
+Definition is_comment_line (l : list N) : bool :=
+  match skip_ws l with
+  | b :: _ => (b =? 35) || (b =? 59)
+  | [] => false
+  end.
+
+(* does the line end in a backslash that is not escaped itself? *)
+Fixpoint ends_escaped (esc : bool) (l : list N) : bool :=
+  match l with
+  | [] => esc
+  | b :: r => if esc then ends_escaped false r else ends_escaped (b =? 92) r
+  end.
+
+(* key and value at the first '=' *)
+Fixpoint split_assign (key_rev : list N) (l : list N) : option (list N * list N) :=
+  match l with
+  | [] => None
+  | b :: r => if b =? 61 then Some (rev key_rev, r) else split_assign (b :: key_rev) r
+  end.
+
+Inductive line_kind :=
+| LIgnore                                  (* empty, or ignored with a warning *)
+| LSection (name : list N)
+| LAssign (key value : list N)
+| LBad.                                    (* the unit fails to load *)
+
+(* parse_line on a complete (joined) line *)
+Definition classify_line (p : list N) : line_kind :=
+  let l := strstrip p in
+  match l with
+  | [] => LIgnore
+  | b0 :: t =>
+    if negb (utf8_is_valid l) then LBad
+    else if b0 =? 91 then
+      match rev t with
+      | x :: m => if x =? 93 then LSection (rev m) else LBad
+      | [] => LBad
+      end
+    else
+      match split_assign [] l with
+      | None => LIgnore
+      | Some (k, v) =>
+        match k with
+        | [] => LIgnore
+        | _ :: _ => LAssign (strstrip k) (strstrip v)
+        end
+      end
+  end.
+
+Definition name_service : list N := [83; 101; 114; 118; 105; 99; 101].                 (* Service *)
+Definition name_exec_start : list N := [69; 120; 101; 99; 83; 116; 97; 114; 116].      (* ExecStart *)
+Definition utf8_bom : list N := [239; 187; 191].
+
+(* [in_service]: the current section is [Service]; [execs]: the values of the
+   ExecStart= assignments seen so far, last one first *)
+Definition apply_line (in_service : bool) (execs : list (list N)) (p : list N)
+  : option (bool * list (list N)) :=
+  match classify_line p with
+  | LBad => None
+  | LIgnore => Some (in_service, execs)
+  | LSection n => Some (list_eqb n name_service, execs)
+  | LAssign k v =>
+    if in_service && list_eqb k name_exec_start
+    then Some (in_service, v :: execs)
+    else Some (in_service, execs)
+  end.
+
+(* state of config_parse between two lines of the file: the continued line so
+   far, whether a byte order mark was dropped already, then as in apply_line *)
+Inductive ustate :=
+| UState (cont : option (list N)) (bom_seen : bool) (in_service : bool) (execs : list (list N)).
+
+Definition drop_bom (bom_seen : bool) (buf : list N) : list N * bool :=
+  if bom_seen then (buf, true)
+  else match strip_prefix utf8_bom buf with
+       | Some q => (q, true)
+       | None => (buf, false)
+       end.
+
+(* one line of the file *)
+Definition unit_step (st : ustate) (buf : list N) : option ustate :=
+  match st with
+  | UState cont bs sv ex =>
+    if is_comment_line buf then Some st
+    else
+      let lb := drop_bom bs buf in
+      let p := match cont with Some c => c ++ fst lb | None => fst lb end in
+      if ends_escaped false p then Some (UState (Some (removelast p ++ [32])) (snd lb) sv ex)
+      else match apply_line sv ex p with
+           | Some r => Some (UState None (snd lb) (fst r) (snd r))
+           | None => None
+           end
+  end.
+
+Fixpoint unit_run (st : ustate) (ls : list (list N)) : option ustate :=
+  match ls with
+  | [] => Some st
+  | l :: r => match unit_step st l with Some st' => unit_run st' r | None => None end
+  end.
+
+(* end of the file: a continuation that is still open is a line *)
+Definition unit_finish (st : ustate) : option (list (list N)) :=
+  match st with
+  | UState cont _ sv ex =>
+    match cont with
+    | None => Some (rev ex)
+    | Some p => match apply_line sv ex p with Some r => Some (rev (snd r)) | None => None end
+    end
+  end.
+
+(* the values of all ExecStart= assignments systemd finds in section [Service]
+   of this unit file text, in order; None: the unit does not load.  (For
+   Type=simple systemd refuses a unit with more than one command.) *)
+Definition service_exec_starts (text : list N) : option (list (list N)) :=
+  match unit_run (UState None false false []) (file_lines text) with
+  | Some st => unit_finish st
+  | None => None
+  end.
